@@ -13,7 +13,7 @@ from program import op_place, op_local, is_move, forward
 from order import names
 
 RULES = os.path.join(os.path.dirname(os.path.dirname(os.path.abspath(__file__))), "rules")
-ERR_ADTS = ("rawdb::error::Error", "vecdb::error::Error")
+ERR_ADTS = ("rawdb::error::Error", "vecdb::error::Error", "verif_fixtures::E")
 
 
 class Atom:
